@@ -57,10 +57,11 @@ def main(argv=None):
         return 0
     if a.cmd == "baseline":
         code, ctx, lines = report.run_property(a.prop, "quick", root=a.root, write=False, quiet=True)
-        keys = sorted(o.key for o in ctx.obs.values())
+        keys = sorted(o.key for o in ctx.obs.values() if not o.soft)
         per = {}
         for o in ctx.obs.values():
-            per[o.rule] = per.get(o.rule, 0) + 1
+            if not o.soft:
+                per[o.rule] = per.get(o.rule, 0) + 1
         out = {"property": a.prop, "confirmed_on": "pinned tree + fix commits", "obligations": keys, "min_per_rule": per}
         p = report.VERIF / "baseline" / (a.prop + ".obligations.json")
         p.parent.mkdir(exist_ok=True)
